@@ -63,6 +63,7 @@ PLACE = ["stage:Stage.subject_to", "sampling_method:SamplingMethod.eval_at_contr
 META = {
     "C01": _m("proof", SHOOT, "The real rockit functions are executed by CPython on a casadi model whose values are z3 terms; the emitted gap rows are compared with the scheme oracle with uninterpreted dynamics.", [A_CASADI, A_OPTI, A_FLOAT, A_PY, A_INTG]),
     "C02": _m("proof", ["direct_collocation:DirectCollocation.__init__", "direct_collocation:DirectCollocation.add_variables", "direct_collocation:DirectCollocation.add_constraints", "sampling_method:SamplingMethod.get_p_sys", "stage:Stage._ode"], "collocation defects / algebraic rows / continuity rows compared with the Lagrange-polynomial oracle", [A_CASADI, A_OPTI, A_FLOAT, A_PY]),
+    "C03": _m("proof", SHOOT + ["sampling_method:SamplingMethod.intg_builtin", "ocp:Ocp.sys_simulator", "direct_collocation:DirectCollocation.__init__", "direct_collocation:DirectCollocation.add_constraints"], "scheme identification (C01/C02 obligations) + order conditions of the identified tableaux + collocation tables on the real CasADi + integrator plumbing; limits by citation", [A_CASADI, A_OPTI, A_FLOAT, A_PY, A_INTG, A_MATH_RK, "A-MATH-FLOW: time rescaling tau -> t0 + tau*DT with xdot = DT*f preserves the flow"]),
     "C04": _m("proof", PLACE, "multiset of emitted rows = placement oracle; nothing else emitted", [A_CASADI, A_OPTI, A_FLOAT, A_PY]),
     "C05": _m("proof", ["stage:Stage.add_objective", "direct_method:DirectMethod.fill_placeholders_integral", "sampling_method:SamplingMethod.fill_placeholders_sum_control", "sampling_method:SamplingMethod.fill_placeholders_sum_control_plus", "sampling_method:SamplingMethod.fill_placeholders_integral_control", "sampling_method:SamplingMethod.fill_placeholders_at_t0", "sampling_method:SamplingMethod.fill_placeholders_at_tf", "sampling_method:SamplingMethod.add_objective", "direct_method:OptiWrapper.add_objective", "direct_method:OptiWrapper.transcribe_placeholders", "placeholders:TranscribedPlaceholders.__call__"], "objective handed to Opti.minimize = sum of declared terms", [A_CASADI, A_OPTI, A_FLOAT, A_PY]),
     "C06": _m("proof", ["sampling_method:Grid.__call__", "sampling_method:FixedGrid.bounds_T", "sampling_method:UniformGrid.bounds_T", "sampling_method:UniformGrid.normalized", "sampling_method:GeometricGrid.normalized", "sampling_method:GeometricGrid.growth_factor", "sampling_method:GeometricGrid.bounds_T", "sampling_method:FreeGrid.bounds_T", "sampling_method:SamplingMethod.add_variables_V_control_finalize", "sampling_method:SamplingMethod.add_coupling_constraints", "sampling_method:SamplingMethod.get_DT_at", "sampling_method:SamplingMethod.get_DT_control_at"], "grid = declared partition; coupling rows equivalent to it", [A_CASADI, A_OPTI, A_FLOAT, A_PY]),
